@@ -290,6 +290,7 @@ pub fn valid_unit(rng: &mut Rng, m: &Model, ctx: &[String], o: &UnitOpts) -> Opt
             args: args_for(rng, d, o.payloads),
             fault: fault::NONE,
             raw: None,
+            ws_after: vec![],
             good: None,
         });
     }
